@@ -19,7 +19,11 @@
 #include <ctype.h>
 #include <stdarg.h>
 
+#include <sys/time.h>
 #define MAXC 4
+/* virtual clock: every gettimeofday() of the library (rfbUpdateClient's deferral) reads it */
+static long vnow_s = 1000, vnow_us = 0;
+int __wrap_gettimeofday(struct timeval *tv, void *tz) { if (tv) { tv->tv_sec = vnow_s; tv->tv_usec = vnow_us; } return 0; }
 static rfbScreenInfoPtr scr;
 static int W, H, BPP;
 static char *fbmem;
@@ -131,6 +135,13 @@ static int peer_parse(int c) {
     size_t av = b->n - b->rd, pos; unsigned char *p = b->p + b->rd;
     unsigned nr, k; int bpp = pbpp[c];
     if (av == 0) return 0;
+    if (p[0] == rfbResizeFrameBuffer) {
+      if (av < sz_rfbResizeFrameBufferMsg) return 0;
+      wadd(c, " w%d:resize=%ux%u", c, vs_get16(p + 2), vs_get16(p + 4));
+      peer_resize(c, vs_get16(p + 2), vs_get16(p + 4));
+      b->rd += sz_rfbResizeFrameBufferMsg;
+      continue;
+    }
     if (p[0] != 0) { wadd(c, " w%d:UNEXPECTED-MSG-%u", c, p[0]); b->rd = b->n; return -1; }
     if (av < 4) return 0;
     nr = vs_get16(p + 2); pos = 4;
@@ -217,8 +228,11 @@ static void observe(const char *op) {
     print_region("R", cl->requestedRegion);
     printf(" f=%d%d%d%d%d%d%d", cl->useCopyRect ? 1 : 0, cl->enableCursorShapeUpdates ? 1 : 0, cl->cursorWasChanged ? 1 : 0,
            cl->readyForSetColourMapEntries ? 1 : 0, cl->useNewFBSize ? 1 : 0, cl->useExtDesktopSize ? 1 : 0, cl->newFBSizePending ? 1 : 0);
-    printf(" q=%d,%d sy=%d sz=%dx%d P=%lu", cl->requestedDesktopSizeChange, cl->lastDesktopSizeChangeError,
-           cl->progressiveSliceY, pw[c], ph[c], pic_hash_peer(c));
+    printf(" q=%d,%d sy=%d df=%ld,%ld", cl->requestedDesktopSizeChange, cl->lastDesktopSizeChangeError,
+           cl->progressiveSliceY, (long)cl->startDeferring.tv_sec, (long)cl->startDeferring.tv_usec);
+    if (cl->scaledScreen != cl->screen) printf(" sc=%dx%d", cl->scaledScreen->width, cl->scaledScreen->height);
+    else printf(" sc=-");
+    printf(" b=%d sz=%dx%d P=%lu", pbpp[c], pw[c], ph[c], pic_hash_peer(c));
     if (cl->scaledScreen != cl->screen) {
       /* scaled client (implementation-only cases): report whether the picture is uniform, and its value */
       int x, y, uni = 1; uint32_t v0 = ppic[c][0];
@@ -226,7 +240,10 @@ static void observe(const char *op) {
       printf(" I=- scaled=%dx%d uniform=%d value=%u", cl->scaledScreen->width, cl->scaledScreen->height, uni, (unsigned)v0);
     } else printf(" I=%d", inv_check(c));
   }
-  printf(" | F=%lu S=%dx%dx%d\n", pic_hash_fb(), W, H, BPP);
+  printf(" | F=%lu S=%dx%dx%d T=%d X=[", pic_hash_fb(), W, H, BPP, scr->deferUpdateTime);
+  { rfbScreenInfoPtr q; int first = 1;
+    for (q = scr->scaledScreenNext; q; q = q->scaledScreenNext) { printf("%s%dx%d", first ? "" : ";", q->width, q->height); first = 0; } }
+  printf("]\n");
   fflush(stdout);
 }
 
@@ -243,7 +260,7 @@ static int my_setdesktopsize(int w, int h, int n, rfbExtDesktopScreen *s, rfbCli
 
 static void start_case(int w, int h, int bpp) {
   end_case();
-  W = w; H = h; BPP = bpp; dead = 0;
+  W = w; H = h; BPP = bpp; dead = 0; vnow_s = 1000; vnow_us = 0;
   scr = vs_screen(w, h, bpp);
   /* the process-global default cursor caches its rich-colour form in the pixel format of the
    * first screen that sent it; a later screen of another depth would read past that buffer
@@ -331,6 +348,11 @@ static void app_copy_simul(sraRegionPtr r, int dx, int dy) {
   free(old); free(bm);
 }
 
+/* scaled clients: only the size bookkeeping is modelled (see scaled_guard in UpdateDefs.v) */
+static int noguard = 0;   /* implementation-only cases (class f12): scaled clients are driven beyond the model's scope */
+static int is_scaled(int c) { return !noguard && cls[c]->scaledScreen != cls[c]->screen; }
+static int scaled_guard(int c) { return is_scaled(c) && !(cls[c]->useNewFBSize && cls[c]->newFBSizePending); }
+
 static void client_msg(int c, const unsigned char *m, size_t n) {
   vs_write(peers[c], m, n);
   rfbProcessClientMessage(cls[c]);
@@ -350,6 +372,7 @@ int main(void) {
       if (sscanf(rest, "%d %d %d %d", &k, &w, &h, &bpp) < 4) { printf("%s\nBAD CASE\n", line); continue; }
       printf("%s\n", line); fflush(stdout);
       start_case(w, h, bpp);
+      noguard = strstr(rest, " f12") != NULL;
       continue;
     }
     if (!scr) continue;
@@ -381,7 +404,7 @@ int main(void) {
       rfbDoCopyRect(scr, a[0], a[1], a[2], a[3], a[4], a[5]);
     } else if (!strcmp(op, "req")) {
       unsigned char m[10];
-      if (a[0] < 0 || a[0] >= ncl) { printf("o req | ERROR\n"); dead = 1; continue; }
+      if (a[0] < 0 || a[0] >= ncl || is_scaled(a[0])) { printf("o req | ERROR\n"); dead = 1; continue; }
       m[0] = 3; m[1] = a[1]; vs_put16(m + 2, a[2]); vs_put16(m + 4, a[3]); vs_put16(m + 6, a[4]); vs_put16(m + 8, a[5]);
       client_msg(a[0], m, 10);
     } else if (!strcmp(op, "setenc")) {
@@ -412,10 +435,10 @@ int main(void) {
     } else if (!strcmp(op, "knobs")) {
       scr->maxRectsPerUpdate = a[0]; scr->progressiveSliceHeight = a[1];
     } else if (!strcmp(op, "tick")) {
-      if (a[0] < 0 || a[0] >= ncl) { printf("o tick | ERROR\n"); dead = 1; continue; }
+      if (a[0] < 0 || a[0] >= ncl || scaled_guard(a[0])) { printf("o tick | ERROR\n"); dead = 1; continue; }
       rfbUpdateClient(cls[a[0]]);
     } else if (!strcmp(op, "send")) {
-      if (a[0] < 0 || a[0] >= ncl) { printf("o send | ERROR\n"); dead = 1; continue; }
+      if (a[0] < 0 || a[0] >= ncl || scaled_guard(a[0])) { printf("o send | ERROR\n"); dead = 1; continue; }
       rfbSendFramebufferUpdate(cls[a[0]], cls[a[0]]->modifiedRegion);
     } else if (!strcmp(op, "newfb")) {
       /* newfb w h bpp seed : fresh buffer with known content, old one freed at once */
@@ -439,9 +462,27 @@ int main(void) {
         W = w; H = h; BPP = bpp;
         if (free_old) free(old);
       }
+    } else if (!strcmp(op, "time")) {
+      vnow_s = a[0]; vnow_us = a[1];
+    } else if (!strcmp(op, "defer")) {
+      scr->deferUpdateTime = a[0];
+    } else if (!strcmp(op, "setpf")) {
+      /* SetPixelFormat to the server-style format of that depth + non-incremental full request */
+      int c = a[0], b = a[1]; unsigned char m[10];
+      int rmax, gmax, bmax, rs, gs, bs, depth;
+      if (c < 0 || c >= ncl || is_scaled(c) || !(b == 1 || b == 2 || b == 4)) { printf("o setpf | ERROR\n"); dead = 1; continue; }
+      if (b == 1) { rmax = 7; gmax = 7; bmax = 3; rs = 0; gs = 3; bs = 6; depth = 8; }
+      else if (b == 2) { rmax = gmax = bmax = 31; rs = 0; gs = 5; bs = 10; depth = 16; }
+      else { rmax = gmax = bmax = 255; rs = 0; gs = 8; bs = 16; depth = 32; }
+      if (b == BPP) depth = scr->serverFormat.depth;     /* same depth: exactly the server's format (no translation) */
+      vs_send_pixfmt(peers[c], 8 * b, depth, 0, 1, rmax, gmax, bmax, rs, gs, bs);
+      rfbProcessClientMessage(cls[c]);
+      pbpp[c] = b; pf[c].bpp = b; pf[c].rmax = rmax; pf[c].gmax = gmax; pf[c].bmax = bmax; pf[c].rs = rs; pf[c].gs = gs; pf[c].bs = bs;
+      m[0] = 3; m[1] = 0; vs_put16(m + 2, 0); vs_put16(m + 4, 0); vs_put16(m + 6, W); vs_put16(m + 8, H);
+      client_msg(c, m, 10);
     } else if (!strcmp(op, "setscale")) {
       unsigned char m[4];
-      if (a[0] < 0 || a[0] >= ncl) { printf("o setscale | ERROR\n"); dead = 1; continue; }
+      if (a[0] < 0 || a[0] >= ncl || a[1] <= 0) { printf("o setscale | ERROR\n"); dead = 1; continue; }
       m[0] = rfbSetScale; m[1] = a[1]; m[2] = m[3] = 0;
       client_msg(a[0], m, 4);
     } else if (!strcmp(op, "setdesktopsize")) {
